@@ -130,7 +130,7 @@ def check_keyboard(ctx, rep, tier):
     i_ps2 = field_index(ctx, KB, ty_path='Ps2Decoder')
     i_ed = field_index(ctx, KB, ty_path='EventDecoder')
     i_ss = field_index(ctx, KB, ty_kind='param')
-    if len(i_ps2) != 1 or len(i_ed) != 1 or len(i_ss) != 1 or len(a['variants'][0]['fields']) != 3:
+    if len(i_ps2) != 1 or len(i_ed) != 1 or len(i_ss) != 1:
         raise Undecided('Keyboard no longer consists of exactly one frame decoder, one scancode set and one event decoder')
     i_ps2, i_ed, i_ss = i_ps2[0], i_ed[0], i_ss[0]
     stage_name = {i_ps2: 'frame decoder', i_ss: 'scancode decoder', i_ed: 'event decoder'}
@@ -138,6 +138,8 @@ def check_keyboard(ctx, rep, tier):
         if fl['vis'] == 'pub':
             rep.finding('C18 public-stage-field %s' % fl['name'], 'Keyboard.%s became public: stages are no longer isolated' % fl['name'])
     rep.ob('stage fields private', 3)
+    if len(a['variants'][0]['fields']) != 3:
+        rep.note('Keyboard has %d fields besides the three stages (not judged)' % (len(a['variants'][0]['fields']) - 3))
 
     def m(adt, name):
         return find_generic_method(ctx, adt, name)['path']
